@@ -167,11 +167,103 @@ def check_conversion(ctx, prog, rule, label, path, src, kind, dst, gargs=None, s
     return cells, proved
 
 
-def quire_round_trip(ctx, prog):
-    """C12: Q::from(p).to_posit() == p for every bit pattern p, per regime cell; a cell that stays undecided (the multi-limb negation
-    needs the lowest set bit) is partitioned by the position of the lowest set fraction bit"""
-    from quire_common import Q8, Q16, Q32
+def quire_trip(ctx, prog, q, make_state, flip, rule, label, tp=None, signs=(False, True), kfilter=None):
+    """for every posit p (regime cells, refined by the lowest set fraction bit where the multi-limb negation needs it):
+    to_posit(make_state(p)) == p (flip=False) or == -p (flip=True).  make_state(I, bits, negative) -> quire state value or None.
+    Returns (cells, proved)."""
     from interp import _static_frame
+    import rules_rounding as RR
+    pty = q.pty
+    tp = tp or prog.inherent(q.tykey, 'to_posit')
+    I = Interp(prog, max_steps=400000)
+
+    def attempt(bits, negative, cname):
+        """bits: the positive pattern y (msb first, constants / literals); the argument is y or -y"""
+        try:
+            state = make_state(I, bits, negative)
+            if state is None:
+                return 'undecided'
+            mk = lambda: [ARef(_static_frame(state), 0, [])]
+            o2 = I.run(tp, mk())
+            outs = [o2]
+            if o2.kind == 'undecided':
+                outs, complete = I.explore(tp, mk, {}, max_paths=64)
+                outs = [o for o in outs if o.kind != 'infeasible']
+                if not complete or not outs or any(o.kind == 'undecided' for o in outs):
+                    return 'undecided'
+        except Exception as ex:
+            ctx.undecided.setdefault('routing_unsupported', []).append('%s: %s' % (cname, str(ex)[:80]))
+            return 'undecided'
+        want = list(bits)
+        res_neg = negative ^ flip
+        res = 'proved'
+        for o in outs:
+            if o.kind != 'return':
+                return 'undecided' if len(outs) > 1 or o.kind not in ('panic', 'budget') else ('panic', o)
+            r = result_int(o.value)
+            if r is None:
+                return 'undecided'
+            if res_neg:
+                if r.negof is None and r.is_const():
+                    got = sym_msb_first(AInt.const(r.bits, False, -r.uval()))
+                elif r.negof is None:
+                    return 'undecided'
+                else:
+                    got = sym_msb_first(r.negof)
+            else:
+                got = sym_msb_first(r)
+            if any(b is None for b in got):
+                return 'undecided'
+            if got != want:
+                res = ('mismatch', got)
+        return res
+
+    cells = proved = 0
+    for negative in signs:
+        for k, e, fl, known in regime_cells(pty.bits, pty.es):
+            if kfilter is not None and not kfilter(k):
+                continue
+            lits = [('x', 0, fl - 1 - i, False) for i in range(fl)]
+            base = [0] + list(known) + lits
+            cname = '%s%s k=%d e=%d' % (q.name, '-' if negative else '+', k, e)
+            work = [(base, cname)]
+            r = attempt(base, negative, cname)
+            if r == 'undecided' and fl:
+                # partition by the lowest set fraction bit
+                work = [([0] + list(known) + [0] * fl, cname + ' frac=0')]
+                for j in range(fl):
+                    sub = [('x', 0, fl - 1 - i, False) if (fl - 1 - i) > j else (1 if (fl - 1 - i) == j else 0) for i in range(fl)]
+                    work.append(([0] + list(known) + sub, cname + ' lowest@%d' % j))
+                r = None
+            for bits, cn in work:
+                cells += 1
+                rr = r if r is not None else attempt(bits, negative, cn)
+                if rr == 'proved':
+                    proved += 1
+                elif rr == 'undecided':
+                    ctx.count('routing_cells_undecided')
+                elif rr[0] == 'panic':
+                    # confirm on a concrete member of the cell before reporting
+                    conc = [b if not isinstance(b, tuple) else 0 for b in bits]
+                    if attempt(conc, negative, cn) not in ('proved', 'undecided'):
+                        ctx.finding(rule, label, 'no-return', '%s does not return on regime cell %s: %s at %s' % (label, cn, rr[1].value, rr[1].where))
+                    else:
+                        ctx.count('routing_cells_undecided')
+                else:
+                    conc0 = [b if not isinstance(b, tuple) else 0 for b in bits]
+                    conc1 = [b if not isinstance(b, tuple) else 1 for b in bits]
+                    if any(attempt(c_, negative, cn) not in ('proved', 'undecided') for c_ in (conc0, conc1)):
+                        f = ctx.finding(rule, label, 'cells', '%s: to_posit of the resulting accumulator is not %sp on regime cell %s' % (label, '-' if flip else '', cn),
+                                        {'got': str(rr[1]), 'want': str(bits), 'cells': []})
+                        f.details.setdefault('cells', []).append(cn)
+                    else:
+                        ctx.count('routing_cells_undecided')
+    return cells, proved
+
+
+def quire_round_trip(ctx, prog):
+    """C12: Q::from(p).to_posit() == p for every bit pattern p"""
+    from quire_common import Q8, Q16, Q32
     import rules_rounding as RR
     total = 0
     for q in (Q8, Q16, Q32):
@@ -180,90 +272,14 @@ def quire_round_trip(ctx, prog):
         for im in prog.impl_index.get(('core::convert::From', q.tykey), []):
             if im['trait']['args'][1].get('ty') == pty.tykey:
                 frm = im['items'][0]['path']
-        tp = prog.inherent(q.tykey, 'to_posit')
-        if not frm or not tp:
+        if not frm or not prog.inherent(q.tykey, 'to_posit'):
             ctx.finding('ANCHOR', '%s round trip' % q.name, 'missing', 'From<P> for Q / to_posit not found')
             continue
-        I = Interp(prog, max_steps=400000)
 
-        def attempt(bits, negative, cname):
-            """bits: the positive pattern y (msb first, constants / literals); the argument is y or -y"""
-            try:
-                o1 = I.run(frm, [RR.posit_input(pty, bits, negative)])
-                if o1.kind != 'return':
-                    return 'undecided'
-                state = o1.value
-                mk = lambda: [ARef(_static_frame(state), 0, [])]
-                o2 = I.run(tp, mk())
-                outs = [o2]
-                if o2.kind == 'undecided':
-                    outs, complete = I.explore(tp, mk, {}, max_paths=64)
-                    outs = [o for o in outs if o.kind != 'infeasible']
-                    if not complete or not outs or any(o.kind == 'undecided' for o in outs):
-                        return 'undecided'
-            except Exception as ex:
-                ctx.undecided.setdefault('routing_unsupported', []).append('%s: %s' % (cname, str(ex)[:80]))
-                return 'undecided'
-            want = list(bits)
-            res = 'proved'
-            for o in outs:
-                if o.kind != 'return':
-                    return 'undecided' if len(outs) > 1 or o.kind not in ('panic', 'budget') else ('panic', o)
-                r = result_int(o.value)
-                if r is None:
-                    return 'undecided'
-                if negative:
-                    if r.negof is None and r.is_const():
-                        got = sym_msb_first(AInt.const(r.bits, False, -r.uval()))
-                    elif r.negof is None:
-                        return 'undecided'
-                    else:
-                        got = sym_msb_first(r.negof)
-                else:
-                    got = sym_msb_first(r)
-                if any(b is None for b in got):
-                    return 'undecided'
-                if got != want:
-                    res = ('mismatch', got)
-            return res
-
-        cells = proved = 0
-        for negative in (False, True):
-            for k, e, fl, known in regime_cells(pty.bits, pty.es):
-                lits = [('x', 0, fl - 1 - i, False) for i in range(fl)]
-                base = [0] + list(known) + lits
-                cname = '%s%s k=%d e=%d' % (q.name, '-' if negative else '+', k, e)
-                work = [(base, cname)]
-                r = attempt(base, negative, cname)
-                if r == 'undecided' and fl:
-                    # partition by the lowest set fraction bit
-                    work = [([0] + list(known) + [0] * fl, cname + ' frac=0')]
-                    for j in range(fl):
-                        sub = [('x', 0, fl - 1 - i, False) if (fl - 1 - i) > j else (1 if (fl - 1 - i) == j else 0) for i in range(fl)]
-                        work.append(([0] + list(known) + sub, cname + ' lowest@%d' % j))
-                    r = None
-                for bits, cn in work:
-                    cells += 1
-                    rr = r if r is not None else attempt(bits, negative, cn)
-                    if rr == 'proved':
-                        proved += 1
-                    elif rr == 'undecided':
-                        ctx.count('routing_cells_undecided')
-                    elif rr[0] == 'panic':
-                        # confirm on a concrete member of the cell before reporting
-                        conc = [b if not isinstance(b, tuple) else 0 for b in bits]
-                        if attempt(conc, negative, cn) not in ('proved', 'undecided'):
-                            ctx.finding('QROUNDTRIP', q.name, 'no-return', 'quire round trip does not return on regime cell %s: %s at %s' % (cn, rr[1].value, rr[1].where))
-                        else:
-                            ctx.count('routing_cells_undecided')
-                    else:
-                        conc0 = [b if not isinstance(b, tuple) else 0 for b in bits]
-                        conc1 = [b if not isinstance(b, tuple) else 1 for b in bits]
-                        if any(attempt(c_, negative, cn) not in ('proved', 'undecided') for c_ in (conc0, conc1)):
-                            ctx.finding('QROUNDTRIP', q.name, 'cell=' + cn.replace(' ', ''), 'Q::from(p).to_posit() is not p on regime cell %s' % cn,
-                                        {'got': str(rr[1]), 'want': str(bits)})
-                        else:
-                            ctx.count('routing_cells_undecided')
+        def make_state(I, bits, negative, frm=frm, pty=pty):
+            o1 = I.run(frm, [RR.posit_input(pty, bits, negative)])
+            return o1.value if o1.kind == 'return' else None
+        cells, proved = quire_trip(ctx, prog, q, make_state, False, 'QROUNDTRIP', q.name)
         ctx.count('roundtrip_cells_%s' % q.name, cells)
         ctx.count('roundtrip_cells_proved_%s' % q.name, proved)
         total += proved
